@@ -997,6 +997,11 @@ fn c05_pdu_checks(
     orc: &mut impl Write,
 ) {
     let total = bytes.len();
+    // the same bytes read in short reads must decode to the same value
+    match guard(|| PDU::decode(&mut crate::util::Dribble::new(bytes))) {
+        Ok(Ok(v3)) if pdu_same(v, &v3) => {}
+        _ => fail!(orc, "C05", id, k, line, "{what}: decode(encode(v)) from a reader delivering short reads does not give v back, encode(v) = {}", hex(bytes)),
+    }
     match guard(|| PDU::decode(&mut &bytes[..])) {
         Err(()) => fail!(orc, "C05", id, k, line, "{what}: decode(encode(v)) panicked"),
         Ok(Err(e)) => fail!(orc, "C05", id, k, line, "{what}: decode(encode(v)) = Err({e:?}), encode(v) = {}", hex(bytes)),
